@@ -510,6 +510,22 @@ def gen_script(rng, ulo, uhi):
     return Script(pieces)
 
 
+def gen_script_alt(rng, ulo, uhi):
+    """alternating-sign script (several crossings in both directions, some through exact zeros)"""
+    n = rng.randint(2, 6)
+    span = uhi - ulo
+    cuts = sorted({ulo + dy(rng, rng.choice([2, 3, 4, 5]), 0, 1) * span for _ in range(n)})
+    s = rng.choice([-1, 1])
+    pieces = [(ulo - 100, F(s), 0)]
+    for c in cuts:
+        s = -s
+        if rng.random() < 0.3:
+            pieces.append((c, 0, F(s) * F(2) ** rng.randint(-2, 2)))     # linear through zero at c, then sign s
+        else:
+            pieces.append((c, F(s) * rng.choice([1, 2, F(1, 2)]), 0))
+    return Script(pieces)
+
+
 def gen_tols(rng, hmag):
     """xtol = hmag * 2^-m so that the bracket test stops the bisection after m halvings (m <= 36 keeps floats exact)"""
     m = rng.choice([1, 2, 3, 5, 8, 12, 20, 30, 36])
@@ -526,9 +542,9 @@ def corr_exact(ctx):
     checks = []     # (kind, name, python observation, request index)
     inexact = 0
     wiring = []
-    n_ref = 60 if ctx.thorough() else 14
-    n_grid = 60 if ctx.thorough() else 14
-    n_ad = 50 if ctx.thorough() else 12
+    n_ref = 600 if ctx.thorough() else 40
+    n_grid = 1000 if ctx.thorough() else 60
+    n_ad = 1000 if ctx.thorough() else 60
 
     # ---- predicates: exhaustive sign patterns x magnitudes on python body and compiled function -----
     from hiten.algorithms.integrators import utils as U
@@ -620,6 +636,8 @@ def corr_exact(ctx):
                 for uu in us:
                     pieces.append((uu, F(rng.choice([-1, 0, 1, 1, -1])), 0))
                 sc = Script(pieces)
+            elif ci % 5 in (1, 3):
+                sc = gen_script_alt(rng, ulo, uhi)
             else:
                 sc = gen_script(rng, ulo, uhi)
             xtol, gtol = gen_tols(rng, F(1, 16))
@@ -653,7 +671,7 @@ def corr_exact(ctx):
                 else:
                     atts.append((False, F(2) ** rng.randint(-2, -1)))
             span = abs(tmax - t0) + 1
-            sc = gen_script(rng, u0 - F(1, 8), u0 + span)
+            sc = gen_script_alt(rng, u0, u0 + span - 1) if ci % 2 else gen_script(rng, u0 - F(1, 8), u0 + span)
             xtol, gtol = gen_tols(rng, minS)
             d = rng.choice([-1, 0, 1])
             w = World(sc, t0, u0, attempts=atts, h0=h0)
@@ -690,19 +708,19 @@ def corr_exact(ctx):
             mismatch(name, "driver error " + out[li], lines[li], info)
             continue
         if kind == "pred":
-            ctx.case(("pred", name, lines[li]), kind="predicate")
+            ctx.case(("pred", name, lines[li]), nontrivial=False, kind="predicate")
             if obs[0] != ans[0] or obs[1] != ans[0]:
                 mismatch(name, "compiled=%s python=%s model=%s" % (obs[0], obs[1], ans[0]), lines[li], info)
         elif kind == "pred1":
-            ctx.case(("pred", name, lines[li]), kind="predicate")
+            ctx.case(("pred", name, lines[li]), nontrivial=False, kind="predicate")
             if obs != ans[0]:
                 mismatch(name, "code=%s model=%s" % (obs, ans[0]), lines[li], info)
         elif kind == "tuple":
-            ctx.case(("pred", name, lines[li]), kind="predicate")
+            ctx.case(("pred", name, lines[li]), nontrivial=False, kind="predicate")
             if tuple(pr(a) for a in ans) != obs:
                 mismatch(name, "code=%s model=%s" % (obs, ans), lines[li], info)
         elif kind == "num":
-            ctx.case(("pred", name, lines[li]), kind="predicate")
+            ctx.case(("pred", name, lines[li]), nontrivial=False, kind="predicate")
             if pr(ans[0]) != obs:
                 mismatch(name, "code=%s model=%s" % (obs, ans[0]), lines[li], info)
         elif kind == "refine":
@@ -755,6 +773,688 @@ def corr_exact(ctx):
     return bad
 
 
+# =====================================================================================================
+# numerics / failing-input search on the compiled drivers through the public API
+# =====================================================================================================
+
+_SYS = {}
+
+
+def systems():
+    """Real hiten systems with exact flows; event parameters travel in constant state components so that one compiled
+    event function / one compiled rhs serves every scenario (each new function type recompiles the numba drivers)."""
+    if _SYS:
+        return _SYS
+    import numba
+    from numba.typed import List
+    from hiten.algorithms.dynamics.rhs import create_rhs_system
+    from hiten.algorithms.dynamics.hamiltonian import create_hamiltonian_system
+    from hiten.algorithms.polynomial.base import _create_encode_dict_from_clmo, _encode_multiindex, _init_index_tables
+    from hiten.algorithms.integrators.symplectic import N_VARS_POLY, P_POLY_INDICES, Q_POLY_INDICES
+
+    # generic: y = (x, v, w, a0, a1, a2, a3, a4, c);  x' = v, v' = -w^2 x, parameters constant
+    @numba.njit(cache=False)
+    def rhs9(t, y):
+        out = np.zeros_like(y)
+        out[0] = y[1]
+        out[1] = -y[2] * y[2] * y[0]
+        return out
+
+    @numba.njit(numba.types.float64(numba.types.float64, numba.types.float64[:]), cache=False)
+    def g9(t, y):
+        return y[3] * y[0] + y[4] * y[1] + y[5] * y[0] * y[0] + y[6] * y[0] * y[1] + y[7] * t - y[8]
+
+    _SYS["gen"] = (create_rhs_system(rhs9, dim=9, name="c11-oscillator"), g9)
+
+    # Hamiltonian: H = (q1^2+p1^2)/2 (polynomial, 3 dof); q2,q3,p2,p3 are constants of motion and carry the event
+    deg = 2
+    psi, clmo = _init_index_tables(deg)
+    enc = _create_encode_dict_from_clmo(clmo)
+    H = [np.zeros(psi[N_VARS_POLY, d], dtype=np.complex128) for d in range(deg + 1)]
+    for idx in (Q_POLY_INDICES[0], P_POLY_INDICES[0]):
+        k = np.zeros(N_VARS_POLY, dtype=np.int64)
+        k[idx] = 2
+        H[2][_encode_multiindex(k, 2, enc)] += 0.5
+    Hn = List()
+    for a in H:
+        Hn.append(a.copy())
+    hs = create_hamiltonian_system(H_blocks=Hn, degree=deg, psi_table=psi, clmo_table=clmo, encode_dict_list=enc, n_dof=3, name="c11-harmonic")
+
+    @numba.njit(numba.types.float64(numba.types.float64, numba.types.float64[:]), cache=False)
+    def g6(t, y):
+        # y = (q1,q2,q3,p1,p2,p3):  q2*q1 + q3*p1 + p2*q1*p1 - p3
+        return y[1] * y[0] + y[2] * y[3] + y[4] * y[0] * y[3] - y[5]
+
+    _SYS["ham"] = (hs, g6)
+    return _SYS
+
+
+def osc_exact(A, w, phi, t):
+    """x = A cos(w t + phi), v = -A w sin(w t + phi)"""
+    return A * np.cos(w * t + phi), -A * w * np.sin(w * t + phi)
+
+
+def ref_crossings(Gf, t0, t1, n=6000):
+    """all sign changes of G on (t0,t1] located by dense sampling + Brent: [(t, direction)]"""
+    from scipy.optimize import brentq
+    ts = np.linspace(t0, t1, n + 1)
+    gs = Gf(ts)
+    out = []
+    prev_s, prev_i = 0, 0
+    for i in range(len(ts)):
+        s = int(np.sign(gs[i]))
+        if s == 0:
+            continue
+        if prev_s != 0 and s != prev_s:
+            tz = brentq(lambda t: float(Gf(np.array([t]))[0]), ts[prev_i], ts[i], xtol=1e-15, rtol=8.9e-16)
+            out.append((tz, s))
+        prev_s, prev_i = s, i
+    return out
+
+
+DRIVERS_GEN = ("fixed", "rk45", "dop853")
+DRIVERS_HAM = ("fixed_ham", "rk45_ham", "dop853_ham", "symplectic")
+
+
+def make_integrator(driver, rng, hmax):
+    from hiten.algorithms.integrators.rk import AdaptiveRK, FixedRK
+    from hiten.algorithms.integrators.symplectic import ExtendedSymplectic
+    base = driver.replace("_ham", "")
+    if base == "fixed":
+        order = rng.choice([4, 6, 8])
+        return FixedRK(order), {"class": "FixedRK", "order": order}
+    if base == "symplectic":
+        order = rng.choice([4, 6])
+        return ExtendedSymplectic(order), {"class": "ExtendedSymplectic", "order": order}
+    order = 5 if base == "rk45" else 8
+    rtol = rng.choice([1e-8, 1e-10, 1e-12])
+    return AdaptiveRK(order, rtol=rtol, atol=rtol * 1e-2, max_step=hmax), {"class": "AdaptiveRK", "order": order, "rtol": rtol, "atol": rtol * 1e-2, "max_step": hmax}
+
+
+def gen_coarse(rng):
+    """uniform motion x = v0 t (w = 0 in the generic system, exact for every RK method and dense output) on a grid with |h| = 64 >> 1:
+    the only error left is the event location, which must respect xtol *in time* although the bracket lives in normalised step time"""
+    v0 = 2.0 ** -6
+    c = rng.uniform(1.05, 6.95)
+    xtol = rng.choice([1e-6, 1e-8])
+    direction = rng.choice([0, 1])
+
+    def Gf(ts):
+        return v0 * np.asarray(ts) - c
+
+    return {"family": "gen", "kind": "coarse", "A": 8.0, "w": 0.0, "phi": 0.0, "t0": 0.0, "T": 512.0, "h": 64.0, "a": [1.0, 0.0, 0.0, 0.0, 0.0], "c": c,
+            "direction": direction, "xtol": xtol, "gtol": 1e-15, "zeros": [(c / v0, 1)], "expected": (c / v0, 1), "gscale": v0, "dG": lambda t: v0, "Gf": Gf,
+            "flow": lambda t: (v0 * t, v0 + 0.0 * t)}
+
+
+def gen_scenario(rng, fam):
+    """random oscillator scenario; returns dict or None when the event is not clean enough for an unambiguous reference"""
+    w = 1.0 if fam == "ham" else rng.choice([0.5, 1.0, 2.0, 3.0])
+    A = rng.uniform(0.3, 2.0)
+    phi = rng.uniform(-math.pi, math.pi)
+    T = rng.uniform(1.0, 9.0) / w
+    t0 = rng.choice([0.0, 0.0, rng.uniform(-2, 2)]) if fam == "gen" else 0.0
+    h = rng.choice([0.01, 0.02, 0.04]) / w
+    kind = rng.choice(["affine", "affine", "quad", "prod", "near", "onsurf"] + (["timedep"] if fam == "gen" else []))
+    x0, v0 = osc_exact(A, w, phi, t0)
+    a = [0.0] * 5
+    if kind in ("affine", "near", "onsurf"):
+        th = rng.uniform(0, 2 * math.pi)
+        a[0], a[1] = math.cos(th), math.sin(th) / w
+        R = A
+        if kind == "affine":
+            c = rng.uniform(-0.8, 0.8) * R
+        elif kind == "near":
+            c = a[0] * x0 + a[1] * v0 + rng.choice([-1, 1]) * 10 ** rng.uniform(-10, -6)
+        else:
+            a[0], a[1] = 1.0, 0.0
+            c = float(x0)
+    elif kind == "quad":
+        a[2] = 1.0
+        c = (rng.uniform(0.3, 0.8) * A) ** 2
+    elif kind == "prod":
+        a[3] = 1.0
+        c = rng.uniform(-0.6, 0.6) * 0.5 * A * A * w
+    else:
+        a[0] = 1.0
+        a[4] = rng.uniform(-0.2, 0.2) * A * w
+        c = rng.uniform(-0.5, 0.5) * A + a[4] * t0
+    if fam == "ham":
+        a[2] = 0.0   # no x^2 term in the 4-parameter Hamiltonian event
+        if kind == "quad":
+            return None
+    direction = rng.choice([-1, 0, 1])
+    xtol = rng.choice([1e-12, 1e-12, 1e-10, 1e-8, 1e-6, 1e-4])
+    gtol = rng.choice([1e-12, 1e-12, 1e-15, 1e-9, 1e-6])
+    # scale of the event function: separates the roles of xtol (time) and gtol (value)
+    kappa = rng.choice([1.0, 1.0, 1e-3, 30.0]) if kind != "near" else 1.0
+    a = [kappa * v for v in a]
+    c = kappa * c
+
+    def Gf(ts):
+        x, v = osc_exact(A, w, phi, ts)
+        return a[0] * x + a[1] * v + a[2] * x * x + a[3] * x * v + a[4] * ts - c
+
+    def dG(t, e=1e-6):
+        return float((Gf(np.array([t + e])) - Gf(np.array([t - e])))[0] / (2 * e))
+
+    zs = ref_crossings(Gf, t0, t0 + T)
+    gscale = max(1e-3, float(np.max(np.abs(np.gradient(Gf(np.linspace(t0, t0 + T, 2001)), T / 2000)))))
+    sep_min = 6 * h
+    times = [t0] + [z[0] for z in zs] + [t0 + T]
+    for i, (tz, s) in enumerate(zs):
+        if abs(dG(tz)) < 0.05 * gscale:
+            return None
+        if i > 0 and tz - zs[i - 1][0] < sep_min:
+            return None
+        if t0 + T - tz < sep_min:
+            return None
+        if i == 0 and kind not in ("near",) and tz - t0 < sep_min:
+            return None
+    # tangencies without sign change would be invisible to the reference: require |G| at its local extrema to be clear of 0
+    tt = np.linspace(t0, t0 + T, 4001)
+    gg = Gf(tt)
+    ext = [k for k in range(1, len(tt) - 1) if (gg[k] - gg[k - 1]) * (gg[k + 1] - gg[k]) <= 0]
+    if any(abs(gg[k]) < 0.02 * gscale for k in ext if tt[k] - t0 > 3 * h):
+        return None
+    adm = [z for z in zs if direction == 0 or z[1] == direction]
+    return {"family": fam, "kind": kind, "A": A, "w": w, "phi": phi, "t0": t0, "T": T, "h": h, "a": a, "c": c, "direction": direction,
+            "xtol": xtol, "gtol": gtol, "zeros": zs, "expected": adm[0] if adm else None, "gscale": gscale, "dG": dG, "Gf": Gf,
+            "flow": lambda t: osc_exact(A, w, phi, t)}
+
+
+def scenario_state(sc):
+    x0, v0 = sc["flow"](sc["t0"])
+    a, c = sc["a"], sc["c"]
+    if sc["family"] == "gen":
+        return np.array([x0, v0, sc["w"], a[0], a[1], a[2], a[3], a[4], c], dtype=float)
+    # ham: (q1,q2,q3,p1,p2,p3) with q = x, p = v (w = 1)
+    return np.array([x0, a[0], a[1], v0, a[3], c], dtype=float)
+
+
+def run_scenario(ctx, sc, driver, rng):
+    """returns list of (key, what, replay) problems"""
+    from hiten.algorithms.types.configs import EventConfig
+    from hiten.algorithms.types.options import EventOptions
+    fam = sc["family"]
+    sysm, gfn = systems()[fam]
+    y0 = scenario_state(sc)
+    n = max(2, int(round(sc["T"] / sc["h"])))
+    tv = sc["t0"] + np.linspace(0.0, sc["T"], n + 1)
+    h = sc["T"] / n
+    integ, idesc = make_integrator(driver, rng, 4 * h)
+    ix, iv = (0, 1) if fam == "gen" else (0, 3)
+    A, w = sc["A"], sc["w"]
+    scale = A * max(1.0, w)
+
+    def exact(t):
+        return np.array(sc["flow"](t), dtype=float)
+
+    sol = integ.integrate(sysm, y0.copy(), tv, event_fn=gfn, event_cfg=EventConfig(direction=sc["direction"], terminal=True),
+                          event_options=EventOptions(xtol=sc["xtol"], gtol=sc["gtol"]))
+    plain = integ.integrate(sysm, y0.copy(), tv)
+    ex = np.array([exact(t) for t in tv])
+    err_plain = float(np.max(np.abs(plain.states[:, [ix, iv]] - ex)))
+    grid = driver.startswith("fixed") or driver == "symplectic"
+    if grid and plain.states.shape[0] == len(tv):
+        # the integrator's own trajectory on the grid: the Lean scan decides from its event values in which step the hit must lie
+        Gs = [float(gfn(float(tv[i]), np.ascontiguousarray(plain.states[i], dtype=np.float64))) for i in range(len(tv))]
+        if all(abs(v) > 1e-13 * (1 + abs(sc["c"])) or v == 0.0 for v in Gs[1:]):
+            ctx.extra.setdefault("_grid_checks", []).append((driver, sc["direction"], Gs, float(sol.times[-1]), tv, None))
+    dense = (h * w) ** 4 * scale if grid else 100 * idesc["rtol"] * scale
+    E = 50 * err_plain + 5 * dense + 1e-11 * scale
+    t_end, y_end = float(sol.times[-1]), np.array(sol.states[-1], dtype=float)
+    g_end = float(gfn(t_end, y_end))
+    exp = sc["expected"]
+    rep = {"system": "oscillator x'=v, v'=-w^2 x (%s)" % ("polynomial Hamiltonian H=(q1^2+p1^2)/2" if fam == "ham" else "generic rhs"),
+           "driver": driver, "integrator": idesc, "y0": y0.tolist(), "t_vals": "t0 + linspace(0,%r,%d)" % (sc["T"], n + 1), "t0": sc["t0"],
+           "event": "g = a0*x + a1*v + a2*x^2 + a3*x*v + a4*t - c", "a": sc["a"], "c": sc["c"], "direction": sc["direction"], "xtol": sc["xtol"],
+           "gtol": sc["gtol"], "reference_zeros(t,dir)": [(float(t), int(s)) for t, s in sc["zeros"][:6]],
+           "expected_first_admissible": None if exp is None else float(exp[0]), "observed_t": t_end,
+           "observed_state": y_end[[ix, iv]].tolist(), "plain_integration_error": err_plain, "state_tolerance": E}
+    if ctx.extra.get("_grid_checks") and ctx.extra["_grid_checks"][-1][5] is None and ctx.extra["_grid_checks"][-1][0] == driver:
+        ctx.extra["_grid_checks"][-1] = ctx.extra["_grid_checks"][-1][:5] + (rep,)
+    probs = []
+    tmax = float(tv[-1])
+    state_err = float(np.max(np.abs(y_end[[ix, iv]] - exact(t_end))))
+    rep["state_error_vs_exact_flow"] = state_err
+    marg = ctx.extra.setdefault("numeric_margins(max observed/allowed)", {}).setdefault(driver, {"time": 0.0, "state": 0.0, "g": 0.0})
+    marg["state"] = max(marg["state"], state_err / E)
+    if exp is None:
+        if t_end != tmax:
+            other = [z for z in sc["zeros"] if abs(z[0] - t_end) < 1e-4]
+            if other:
+                probs.append(("%s:direction-filter" % driver, "reports the crossing at t=%.12g although its direction %+d is filtered out (direction=%d)" % (
+                    t_end, other[0][1], sc["direction"]), rep))
+            else:
+                probs.append(("%s:spurious-event" % driver, "reports an event at t=%.12g where the event function does not cross zero" % t_end, rep))
+        elif state_err > E:
+            probs.append(("%s:end-of-span-state" % driver, "no event: returned state is off the trajectory at the end of the span by %.3g (tolerance %.3g)" % (state_err, E), rep))
+        return probs
+    t_ref, s_ref = exp
+    dg = abs(sc["dG"](t_ref))
+    gradn = abs(sc["a"][0]) + abs(sc["a"][1]) + 2 * abs(sc["a"][2]) * A + abs(sc["a"][3]) * A * (1 + w) + 1e-9
+    tol_t = 4 * sc["xtol"] + (4 * sc["gtol"] + gradn * E) / dg + 1e-12 * (1 + abs(t_ref))
+    rep["time_tolerance"] = tol_t
+    marg["time"] = max(marg["time"], abs(t_end - t_ref) / tol_t)
+    if abs(t_end - t_ref) > tol_t:
+        if t_end == tmax and abs(t_ref - tmax) > tol_t:
+            probs.append(("%s:missed-event" % driver, "runs to the end of the span although g crosses zero (direction %+d) at t=%.12g" % (s_ref, t_ref), rep))
+        else:
+            other = [z for z in sc["zeros"] if abs(z[0] - t_end) < max(1e-4, tol_t) and z[0] != t_ref]
+            if other and other[0][0] > t_ref:
+                probs.append(("%s:not-first" % driver, "reports the crossing at t=%.12g but an admissible crossing occurs earlier at t=%.12g" % (t_end, t_ref), rep))
+            elif other:
+                probs.append(("%s:direction-filter" % driver, "reports the crossing at t=%.12g (direction %+d) which is filtered out by direction=%d; first admissible is t=%.12g" % (
+                    t_end, other[0][1], sc["direction"], t_ref), rep))
+            else:
+                probs.append(("%s:time-accuracy" % driver, "event time %.15g differs from the exact first admissible crossing %.15g by %.3g (tolerance %.3g)" % (
+                    t_end, t_ref, abs(t_end - t_ref), tol_t), rep))
+        return probs
+    if state_err > E:
+        probs.append(("%s:off-trajectory" % driver, "state reported at the event is off the exact trajectory at the reported time by %.3g (tolerance %.3g, plain integration error %.3g)" % (
+            state_err, E, err_plain), rep))
+    gb = 4 * max(sc["gtol"], sc["gscale"] * 2 * sc["xtol"]) + 1e-13 * (1 + abs(sc["c"]))
+    rep["g_at_event"] = g_end
+    marg["g"] = max(marg["g"], abs(g_end) / gb)
+    if abs(g_end) > gb:
+        probs.append(("%s:g-not-zero" % driver, "|g| at the reported event is %.3g, location tolerances allow %.3g" % (abs(g_end), gb), rep))
+    return probs
+
+
+def cr3bp_checks(ctx, worst):
+    """CR3BP against an independent SciPy reference (events of solve_ivp, rtol 1e-13): generic drivers and the
+    plane-crossing wrapper `_cross_event_driven` used by orbit correction."""
+    import numba
+    from scipy.integrate import solve_ivp
+    from hiten.algorithms.dynamics.rtbp import rtbp_dynsys, _crtbp_accel
+    from hiten.algorithms.integrators.rk import AdaptiveRK, FixedRK
+    from hiten.algorithms.types.configs import EventConfig
+    from hiten.algorithms.types.options import EventOptions
+    from hiten.algorithms.poincare.singlehit.backend import _SingleHitBackend
+    from hiten.algorithms.poincare.core.events import _PlaneEvent
+    rng = ctx.rng
+    mu = 0.0121505856
+    sysm = rtbp_dynsys(mu)
+
+    @numba.njit(numba.types.float64(numba.types.float64, numba.types.float64[:]), cache=False)
+    def gy(t, y):
+        return y[1]
+
+    def f(t, y):
+        return _crtbp_accel.py_func(np.asarray(y, dtype=float), mu)
+
+    n_cases = 10 if ctx.thorough() else 1
+    done_cases = 0
+    for ci in range(10 * n_cases):
+        if done_cases >= n_cases:
+            break
+        # states near the L1 planar Lyapunov family / generic bounded states away from the primaries
+        y0 = np.array([0.82 + rng.uniform(-0.01, 0.01), rng.choice([0.0, 0.02, -0.015]), rng.choice([0.0, 0.01]), rng.uniform(-0.01, 0.01),
+                       0.12 + rng.uniform(-0.03, 0.03), 0.0])
+        T = rng.uniform(2.5, 4.0)
+        direction = rng.choice([-1, 0, 1])
+        ev = lambda t, y: y[1]
+        ev.direction = direction
+        ref = solve_ivp(f, (0.0, T), y0, method="DOP853", rtol=1e-13, atol=1e-13, events=ev, dense_output=True)
+        tz = [t for t in ref.t_events[0] if t > 1e-9]
+        if np.min(np.hypot(ref.y[0] - (1 - mu), np.hypot(ref.y[1], ref.y[2]))) < 0.02 or (len(tz) > 1 and np.min(np.diff(tz)) < 0.2):
+            continue
+        exp = tz[0] if tz else None
+        done_cases += 1
+        drv = (("dop853", AdaptiveRK(8, rtol=1e-11, atol=1e-13, max_step=0.02)),)
+        if ctx.thorough():
+            drv += (("rk45", AdaptiveRK(5, rtol=1e-11, atol=1e-13, max_step=0.02)), ("fixed", FixedRK(8)))
+        for driver, integ in drv:
+            tv = np.linspace(0.0, T, int(T / 0.002) + 1)
+            sol = integ.integrate(sysm, y0.copy(), tv, event_fn=gy, event_cfg=EventConfig(direction=direction, terminal=True),
+                                  event_options=EventOptions(xtol=1e-12, gtol=1e-12))
+            t_end, y_end = float(sol.times[-1]), np.array(sol.states[-1])
+            ctx.case(("cr3bp", driver, ci), kind="numeric:cr3bp:" + driver)
+            rep = {"system": "CR3BP mu=%r" % mu, "driver": driver, "y0": y0.tolist(), "span": [0.0, T], "event": "g = y (plane y=0)", "direction": direction,
+                   "reference": "scipy solve_ivp DOP853 rtol=atol=1e-13 with events", "expected_first_admissible": exp, "observed_t": t_end}
+            if exp is None:
+                if t_end != float(tv[-1]):
+                    worst.setdefault("%s:spurious-event" % driver, []).append(("CR3BP: event reported at t=%.12g, the reference finds none" % t_end, rep))
+                continue
+            yref = ref.sol(t_end)
+            serr = float(np.max(np.abs(yref - y_end)))
+            rep["state_error_vs_reference"] = serr
+            if abs(t_end - exp) > 1e-7:
+                worst.setdefault("%s:time-accuracy" % driver, []).append(("CR3BP: event time %.12g, reference first admissible crossing %.12g" % (t_end, exp), rep))
+            elif serr > 1e-7 or abs(y_end[1]) > 1e-10:
+                worst.setdefault("%s:off-trajectory" % driver, []).append(("CR3BP: event state differs from the reference trajectory by %.3g, |g|=%.3g" % (serr, abs(y_end[1])), rep))
+        # the plane-crossing wrapper (forward propagation, any direction): first crossing in the window (t0, tmax)
+        be = _SingleHitBackend()
+        surf = _PlaneEvent(coord="y", value=0.0, direction=None)
+        t0w = rng.choice([0.0, 0.3])
+        any_ref = [t for t in solve_ivp(f, (0.0, T), y0, method="DOP853", rtol=1e-13, atol=1e-13, events=lambda t, y: y[1]).t_events[0] if t > t0w + 1e-6]
+        try:
+            setattr(surf, "offset", 0.0)
+        except Exception:
+            pass
+        hit = be._cross_event_driven(y0.copy(), dynsys=sysm, surface=surf, t0=t0w, tmax=T, forward=1)
+        ctx.case(("cr3bp", "wrapper", ci), kind="numeric:cr3bp:_cross_event_driven")
+        rep = {"system": "CR3BP mu=%r" % mu, "call": "_SingleHitBackend()._cross_event_driven(y0, surface=_PlaneEvent('y',0,None), t0=%r, tmax=%r, forward=1)" % (t0w, T),
+               "y0": y0.tolist(), "reference_crossings": any_ref[:4], "observed": None if hit is None else float(hit.time)}
+        if any_ref and any_ref[0] < T - 1e-6:
+            if hit is None:
+                worst.setdefault("wrapper:missed-event", []).append(("_cross_event_driven finds no crossing, reference crosses y=0 at t=%.12g" % any_ref[0], rep))
+            elif abs(hit.time - any_ref[0]) > 1e-7 or float(np.max(np.abs(ref.sol(hit.time) - hit.state))) > 1e-7:
+                worst.setdefault("wrapper:first-crossing", []).append(("_cross_event_driven returns t=%.12g, reference first crossing after the window start is t=%.12g" % (hit.time, any_ref[0]), rep))
+        elif not any_ref and hit is not None:
+            worst.setdefault("wrapper:spurious-event", []).append(("_cross_event_driven returns t=%.12g, the reference finds no crossing" % hit.time, rep))
+        # backward request: the span is traversed backwards in time; the reported time is the elapsed time
+        hitb = be._cross_event_driven(y0.copy(), dynsys=sysm, surface=surf, t0=t0w, tmax=T, forward=-1)
+        refb = solve_ivp(f, (0.0, -T), y0, method="DOP853", rtol=1e-13, atol=1e-13, events=lambda t, y: y[1], dense_output=True)
+        back = [-t for t in refb.t_events[0] if -t > t0w + 1e-6]
+        ctx.case(("cr3bp", "wrapper-backward", ci), kind="numeric:cr3bp:_cross_event_driven(forward=-1)")
+        if hitb is not None:
+            eb = float(np.max(np.abs(refb.sol(-hitb.time) - hitb.state)))
+            ef = float(np.max(np.abs(ref.sol(hitb.time) - hitb.state))) if hitb.time <= T else None
+            if eb > 1e-6:
+                worst.setdefault("wrapper:forward-ignored", []).append((
+                    "_cross_event_driven(forward=-1) returns t=%.12g with a state that is %.3g away from the backward trajectory at that elapsed time "
+                    "(distance to the *forward* trajectory at +t: %s); backward reference crossings (elapsed): %s" % (
+                        hitb.time, eb, "n/a" if ef is None else "%.3g" % ef, [round(b, 9) for b in back[:3]]),
+                    {"system": "CR3BP mu=%r" % mu, "call": "_SingleHitBackend()._cross_event_driven(y0, surface=_PlaneEvent('y',0,None), t0=%r, tmax=%r, forward=-1)" % (t0w, T),
+                     "y0": y0.tolist(), "observed_t": float(hitb.time), "observed_state": hitb.state.tolist(), "backward_reference_crossings_elapsed": back[:4],
+                     "expected_state": refb.sol(-back[0]).tolist() if back else None}))
+        elif back and back[0] < T - 1e-6:
+            worst.setdefault("wrapper:forward-ignored", []).append((
+                "_cross_event_driven(forward=-1) finds nothing, the backward reference crosses y=0 after elapsed t=%.12g" % back[0],
+                {"system": "CR3BP mu=%r" % mu, "y0": y0.tolist(), "t0": t0w, "tmax": T, "backward_reference_crossings_elapsed": back[:4]}))
+
+
+def numerics(ctx):
+    rng = ctx.rng
+    systems()
+    n_sc = 250 if ctx.thorough() else 16
+    worst = {}
+    nprob = 0
+    for fam, drivers in (("gen", DRIVERS_GEN), ("ham", DRIVERS_HAM)):
+        done = 0
+        tries = 0
+        forced = [gen_coarse(rng) for _ in range(3)] if fam == "gen" else []
+        while done < n_sc + len(forced) and tries < 40 * n_sc:
+            tries += 1
+            sc = forced[done] if done < len(forced) else gen_scenario(rng, fam)
+            if sc is None:
+                continue
+            done += 1
+            for driver in drivers:
+                probs = run_scenario(ctx, sc, driver, rng)
+                ctx.case((driver, sc["kind"], sc["direction"], round(sc["A"], 6), round(sc["phi"], 6), sc["xtol"]), kind="numeric:%s:%s" % (driver, "hit" if sc["expected"] else "nohit"),
+                         sample={"driver": driver, "kind": sc["kind"], "direction": sc["direction"], "expected": None if sc["expected"] is None else float(sc["expected"][0])} if done <= 1 else None)
+                for key, what, rep in probs:
+                    nprob += 1
+                    worst.setdefault(key, []).append((what, rep))
+    cr3bp_checks(ctx, worst)
+    # ---- first admissible step on the compiled grid drivers, decided by the Lean scan from their own trajectories
+    gc = ctx.extra.pop("_grid_checks", [])
+    if gc:
+        lines = ["RS %d ; %s" % (d, " ".join(rs(F(v)) for v in Gs)) for (_, d, Gs, _, _, _) in gc]
+        out = [l for l in ctx.lean_run("Drivers/C11.lean", "\n".join(lines) + "\n") if l.strip()]
+        nok = 0
+        for (driver, d, Gs, t_end, tv, rep), ans in zip(gc, out):
+            a = ans.split()
+            ctx.case(("gridscan", driver, lines[nok][:80]), kind="grid-first-step")
+            nok += 1
+            if a[0] == "HIT":
+                i = int(a[1])
+                lo, hi = sorted((float(tv[i]), float(tv[i + 1])))
+                if not (lo - 1e-12 <= t_end <= hi + 1e-12):
+                    worst.setdefault("%s:first-step" % driver, []).append((
+                        "along the integrator's own grid trajectory the first step whose end values satisfy the crossing test is step %d = [%.12g, %.12g] "
+                        "but the event is reported at t=%.12g" % (i, lo, hi, t_end), dict(rep or {}, grid_event_values_first=Gs[:i + 2])))
+            elif a[0] == "NOHIT":
+                if t_end != float(tv[-1]):
+                    worst.setdefault("%s:first-step" % driver, []).append((
+                        "no step of the integrator's own grid trajectory satisfies the crossing test but an event is reported at t=%.12g" % t_end, rep or {}))
+        ctx.extra["grid_first_step_checks"] = len(gc)
+    for key, lst in worst.items():
+        what, rep = lst[0]
+        ctx.violation(key, what + (" (and %d more scenarios with the same key)" % (len(lst) - 1) if len(lst) > 1 else ""), rep)
+    ctx.extra["numeric_scenarios_per_family"] = n_sc
+    ctx.log("numerics: %d scenarios per family, %d problems" % (n_sc, nprob))
+
+
+# =====================================================================================================
+# T-corr replay: python control flow + compiled kernels on real systems, oracle answers replayed by the Lean model
+# =====================================================================================================
+
+class Recorder:
+    def __init__(self, gfn):
+        self.gfn = gfn
+        self.log = []
+
+    def event(self, t, y):
+        v = float(self.gfn(float(t), np.ascontiguousarray(y, dtype=np.float64)))
+        self.log.append(("g", float(t), v))
+        return v
+
+    def step(self, fn, tpos, hpos):
+        def wrapped(*a, **k):
+            self.log.append(("step", float(a[tpos]), float(a[hpos])))
+            return fn(*a, **k)
+        return wrapped
+
+    def sympl_step(self, fn):
+        def wrapped(q_ext, dt, *a, **k):
+            self.log.append(("step", None, float(dt)))
+            return fn(q_ext, dt, *a, **k)
+        return wrapped
+
+    def dense(self, fn, xpos):
+        def wrapped(*a, **k):
+            self.log.append(("x", float(a[xpos])))
+            return fn(*a, **k)
+        return wrapped
+
+
+def hybrid(fn, rec):
+    """python body of `fn` (and of the refine loops / predicates it calls) with every numerical kernel left compiled"""
+    from hiten.algorithms.integrators import rk, symplectic as sy, utils as U
+    leaf = {
+        "rk_embedded_step_jit_kernel": rec.step(rk.rk_embedded_step_jit_kernel, 1, 3),
+        "rk_embedded_step_ham_jit_kernel": rec.step(rk.rk_embedded_step_ham_jit_kernel, 0, 2),
+        "rk45_step_jit_kernel": rec.step(rk.rk45_step_jit_kernel, 1, 3),
+        "rk45_step_ham_jit_kernel": rec.step(rk.rk45_step_ham_jit_kernel, 0, 2),
+        "dop853_step_jit_kernel": rec.step(rk.dop853_step_jit_kernel, 1, 3),
+        "dop853_step_ham_jit_kernel": rec.step(rk.dop853_step_ham_jit_kernel, 0, 2),
+        "_hermite_eval_dense": rec.dense(rk._hermite_eval_dense, 4),
+        "_hermite_eval_dense_symplectic": rec.dense(sy._hermite_eval_dense_symplectic, 4),
+        "_rk45_build_Q_cache": rk._rk45_build_Q_cache, "_rk45_eval_dense": rec.dense(rk._rk45_eval_dense, 3),
+        "_dop853_build_dense_cache": rk._dop853_build_dense_cache, "_dop853_eval_dense": rec.dense(rk._dop853_eval_dense, 3),
+        "_hamiltonian_rhs": rk._hamiltonian_rhs,
+        "_recursive_update_poly": rec.sympl_step(sy._recursive_update_poly),
+        "_eval_hamiltonian_derivative": sy._eval_hamiltonian_derivative, "_get_tao_omega": sy._get_tao_omega,
+        "_pi_accept_factor": U._pi_accept_factor, "_pi_reject_factor": U._pi_reject_factor,
+        "_select_initial_step": U._select_initial_step, "_error_scale": U._error_scale,
+    }
+    return T.retarget(fn, leaf, shim=np)
+
+
+def run_hybrid(driver, integ, sysm, gfn, y0, tv, direction, xtol, gtol):
+    """mirror of the `integrate(..)` wrappers: call the low-level event driver `driver` (python body) on real data"""
+    from hiten.algorithms.integrators import rk, symplectic as sy
+    from hiten.algorithms.integrators.coefficients import dop853 as c8, rk45 as c45
+    rec = Recorder(gfn)
+    base = driver.replace("_ham", "")
+    ham = driver.endswith("_ham")
+    if ham or base == "symplectic":
+        jac_H, clmo_H, n_dof = sysm.rhs_params
+    else:
+        f = integ._build_rhs_wrapper(sysm)
+    if base == "fixed":
+        if ham:
+            r = hybrid(rk._FixedStepRK._integrate_fixed_rk_until_event_ham, rec)(
+                y0, tv, integ._A, integ._B_HIGH, integ._C, rec.event, direction, 1, xtol, gtol, jac_H, clmo_H, n_dof)
+        else:
+            r = hybrid(rk._FixedStepRK._integrate_fixed_rk_until_event, rec)(
+                f, y0, tv, integ._A, integ._B_HIGH, integ._C, rec.event, direction, 1, xtol, gtol)
+        hit, t, y = bool(r[0]), float(r[1]), np.array(r[2], dtype=float)
+    elif base == "symplectic":
+        r = hybrid(sy._integrate_symplectic_until_event, rec)(
+            y0, tv, sysm.jac_H, sysm.clmo_H, integ._order, rec.event, direction, xtol, gtol, integ.c_omega_heuristic)
+        hit, t, y = bool(r[0]), float(r[1]), np.array(r[2], dtype=float)
+    else:
+        common = dict(y0=y0, t0=float(tv[0]), tmax=float(tv[-1]), A=integ._A, B_HIGH=integ._B_HIGH, C=integ._C, rtol=integ._rtol, atol=integ._atol,
+                      max_step=integ._max_step, min_step=integ._min_step, order=integ._p, event_fn=rec.event, direction=direction, terminal=1,
+                      xtol=xtol, gtol=gtol)
+        if base == "rk45":
+            if ham:
+                r = hybrid(rk._RK45._integrate_rk45_until_event_ham, rec)(E=integ._E, P=c45.P, jac_H=jac_H, clmo_H=clmo_H, n_dof=n_dof, **common)
+            else:
+                r = hybrid(rk._RK45._integrate_rk45_until_event, rec)(f=f, E=integ._E, P=c45.P, **common)
+        else:
+            dop = dict(E5=integ._E5, E3=integ._E3, D=c8.D, n_stages_extended=c8.N_STAGES_EXTENDED, interpolator_power=c8.INTERPOLATOR_POWER,
+                       A_full=c8.A, C_full=c8.C)
+            if ham:
+                r = hybrid(rk._DOP853._integrate_dop853_until_event_ham, rec)(jac_H=jac_H, clmo_H=clmo_H, n_dof=n_dof, **dop, **common)
+            else:
+                r = hybrid(rk._DOP853._integrate_dop853_until_event, rec)(f=f, **dop, **common)
+        hit, t, y = bool(r[0]), float(r[1]), np.array(r[2], dtype=float)
+    return hit, t, y, rec.log
+
+
+def parse_log(log, dop):
+    """-> (end-of-step event values [g0, g1, ...], accepted steps [(t,h)], refine record or None)"""
+    assert log and log[0][0] == "g"
+    gs = [log[0][2]]
+    steps = []
+    i = 1
+    cur = None
+    refine = None
+    tcur = log[0][1]
+    while i < len(log):
+        e = log[i]
+        if e[0] == "step":
+            cur = (e[1] if e[1] is not None else tcur, e[2])
+            i += 1
+        elif e[0] == "g" and cur is not None:
+            gs.append(e[2])
+            steps.append(cur)
+            tcur = e[1]
+            cur = None
+            i += 1
+            if i < len(log) and log[i][0] == "g":      # the refinement starts: g_left (and g_right for DOP853)
+                gl0 = log[i][2]
+                i += 2 if dop else 1
+                pairs = []
+                xs = []
+                while i < len(log):
+                    if log[i][0] == "x":
+                        xs.append(log[i][1])
+                        if i + 1 < len(log) and log[i + 1][0] == "g":
+                            pairs.append((log[i][1], log[i + 1][2]))
+                            i += 2
+                        else:
+                            i += 1
+                    else:
+                        raise ValueError("unexpected record inside the refinement: %r" % (log[i],))
+                refine = {"gl0": gl0, "pairs": pairs, "x_hit": xs[-1] if xs else None, "n_dense": len(xs)}
+        else:
+            raise ValueError("unexpected record %r at %d" % (e, i))
+    return gs, steps, refine
+
+
+def corr_replay(ctx):
+    from hiten.algorithms.types.configs import EventConfig
+    from hiten.algorithms.types.options import EventOptions
+    rng = ctx.rng
+    systems()
+    n_sc = 25 if ctx.thorough() else 3
+    lines, checks = [], []
+    bad = {}
+
+    def mismatch(name, what, info):
+        bad.setdefault(name, []).append((what, info))
+
+    for fam, drivers in (("gen", DRIVERS_GEN), ("ham", DRIVERS_HAM)):
+        sysm, gfn = systems()[fam]
+        done = 0
+        while done < n_sc:
+            sc = gen_scenario(rng, fam)
+            if sc is None or (done == 0 and sc["expected"] is None):
+                continue
+            done += 1
+            y0 = scenario_state(sc)
+            n = max(2, int(round(sc["T"] / sc["h"])))
+            tv = sc["t0"] + np.linspace(0.0, sc["T"], n + 1)
+            for driver in drivers:
+                integ, idesc = make_integrator(driver, rng, 4 * sc["T"] / n)
+                info = {"driver": driver, "integrator": idesc, "y0": y0.tolist(), "t0": sc["t0"], "T": sc["T"], "n_grid": n + 1, "a": sc["a"], "c": sc["c"],
+                        "direction": sc["direction"], "xtol": sc["xtol"], "gtol": sc["gtol"]}
+                try:
+                    hit, t, y, log = run_hybrid(driver, integ, sysm, gfn, y0.copy(), tv, sc["direction"], sc["xtol"], sc["gtol"])
+                    gs, steps, refine = parse_log(log, driver.startswith("dop853"))
+                except Exception as ex:   # the python body no longer has the shape the recorder understands
+                    mismatch("replay:" + driver, "could not record the run: %r" % (ex,), info)
+                    continue
+                sol = integ.integrate(sysm, y0.copy(), tv, event_fn=gfn, event_cfg=EventConfig(direction=sc["direction"], terminal=True),
+                                      event_options=EventOptions(xtol=sc["xtol"], gtol=sc["gtol"]))
+                tc, yc = float(sol.times[-1]), np.array(sol.states[-1], dtype=float)
+                ctx.case(("replay", driver, done, fam), kind="replay:" + ("hit" if hit else "nohit"))
+                # compiled driver (public API) vs python control flow over the same compiled kernels
+                if driver.startswith("fixed") or driver == "symplectic":
+                    tol_c = 1e-12 * (1 + abs(t))       # identical step sequence: only rounding may differ
+                else:
+                    # python-level and compiled error norms differ in the last bits -> slightly different step sequences
+                    dgm = max(abs(sc["dG"](t)), 0.05 * sc["gscale"]) if hit else 1.0
+                    tol_c = 4 * sc["xtol"] + 4 * sc["gtol"] / dgm + 1e3 * idesc["rtol"] * (1 + abs(t))
+                vmax = sc["A"] * max(1.0, sc["w"]) * max(1.0, sc["w"])
+                if not (abs(tc - t) <= tol_c and np.max(np.abs(yc - y)) <= 2 * vmax * tol_c + 1e3 * idesc.get("rtol", 1e-15) * vmax):
+                    mismatch("compiled-vs-python:" + driver, "compiled driver returns t=%.15g, python body of the same driver t=%.15g (state diff %.3g)" % (
+                        tc, t, float(np.max(np.abs(yc - y)))), info)
+                lines.append("RS %d ; %s" % (sc["direction"], " ".join(rs(F(v)) for v in gs)))
+                checks.append(("scan", driver, (hit, len(gs) - 1), len(lines) - 1, info))
+                if hit:
+                    if refine is None or not steps:
+                        mismatch("replay:" + driver, "hit without a recorded refinement", info)
+                        continue
+                    ts_, hs_ = steps[-1]
+                    lines.append("RP %d %s %s %s %s %s ; %s" % (sc["direction"], rs(F(ts_)), rs(F(hs_)), rs(F(sc["xtol"])), rs(F(sc["gtol"])), rs(F(refine["gl0"])),
+                                                                " ".join("%s %s" % (rs(F(a)), rs(F(b))) for a, b in refine["pairs"])))
+                    checks.append(("refine", driver, (refine, t), len(lines) - 1, info))
+    out = [l for l in ctx.lean_run("Drivers/C11.lean", "\n".join(lines) + "\n") if l.strip()]
+    if len(out) != len(lines):
+        ctx.broken.append(("correspondence:replay", "lean driver answered %d lines for %d requests" % (len(out), len(lines))))
+        ctx.obligations["correspondence:replay"] = False
+        return
+    for kind, driver, obs, li, info in checks:
+        ans = out[li].split()
+        if kind == "scan":
+            hit, k = obs
+            exp = "HIT %d" % (k - 1) if hit else "NOHIT %d" % k
+            if out[li].strip() != exp:
+                mismatch("replay:" + driver, "scan over the recorded end-of-step event values: code %s, model %s" % (exp, out[li]), dict(info, request=lines[li][:400]))
+        else:
+            refine, t = obs
+            if ans[0] == "MISSING":
+                mismatch("replay:" + driver, "model evaluates the event function at θ=%s which the code never did" % ans[1], dict(info, request=lines[li][:400]))
+                continue
+            x, tm, iters = pr(ans[0]), pr(ans[1]), int(ans[3])
+            ok = (F(refine["x_hit"]) == x and iters == len(refine["pairs"]) and refine["n_dense"] == iters + 1
+                  and abs(float(tm) - t) <= 4e-16 * (1 + abs(t)))
+            if not ok:
+                mismatch("replay:" + driver, "bisection replay: code (θ=%r, %d evaluations, t=%.17g) model (θ=%s, %d, t=%.17g, exit %s)" % (
+                    refine["x_hit"], len(refine["pairs"]), t, x, iters, float(tm), ans[2]), dict(info, request=lines[li][:400]))
+    for driver in DRIVERS_GEN + DRIVERS_HAM:
+        for pre in ("replay:", "compiled-vs-python:"):
+            key = "correspondence:" + pre + driver
+            if pre + driver in bad:
+                what, info = bad[pre + driver][0]
+                ctx.obligations[key] = False
+                ctx.broken.append((key, "%d disagreement(s); first: %s" % (len(bad[pre + driver]), what)))
+                ctx.extra.setdefault("first_disagreements", {})[pre + driver] = {"what": what, "input": info}
+            else:
+                ctx.obligations[key] = True
+    ctx.corr_cases += len(lines)
+    ctx.extra["replay_correspondence"] = {"requests": len(lines), "disagreements": {k: len(v) for k, v in bad.items()}}
+    ctx.log("replay correspondence: %d requests, disagreements %s" % (len(lines), {k: len(v) for k, v in bad.items()}))
+
+
 def run(ctx):
     gen(ctx)
     ok = ctx.lean_build(["HitenModel.Props.C11"])
@@ -763,6 +1463,10 @@ def run(ctx):
         if ctx.thorough():
             ctx.leanchecker(["HitenModel.Props.C11"])
     corr_exact(ctx)
+    corr_replay(ctx)
+    numerics(ctx)
     ctx.rule = ("scripted dyadic worlds (piecewise-affine event scripts, step grids / accept-reject-factor scripts, tolerances) per "
                 "refine loop and driver + recorded replays + numerical scenarios (system x driver x event x direction x tolerance); "
                 "distinct by full request; non-trivial = the request reaches a driver or refine loop (predicate-only lines are counted trivial)")
+
+
